@@ -150,7 +150,11 @@ class BufferedPipe:
                     self._cv.wait(timeout)
                     if timeout is not None:
                         timeout -= time.time() - then
-                        if timeout <= 0.0:
+                        if (
+                            timeout <= 0.0
+                            and len(self._buffer) == 0
+                            and not self._closed
+                        ):
                             raise PipeTimeout()
 
             # something's in the buffer and we have the lock!
